@@ -2,3 +2,6 @@
 size_t gh_out_len; size_t gh_out_calls; size_t gh_watch; char gh_watch_val; char gh_out_last; char gh_out_first;
 const char *gh_last_data; size_t gh_last_len;
 int gh_flushes; int gh_err_n; int gh_err_last; int gh_srq_n; unsigned gh_srq_val; int gh_reset_n;
+size_t gh_w; size_t gh_nul; int gh_free_n; void *gh_free_last; void *gh_free_prev; size_t gh_dup_len;
+unsigned short gh_k;
+int gh_case;
